@@ -48,8 +48,9 @@ fn main() {
                     if e.downcast_ref::<l4v::sym::native::AssumeViolated>().is_some() {
                         skipped += 1;
                     } else {
-                        let used = 256 - l4v::sym::native::leftover();
-                        let hex: Vec<String> = keep[..used].iter().map(|v| v.iter().map(|b| format!("{:02x}", b)).collect::<String>()).collect();
+                        let _ = &keep;
+                        // the values as used (folded draws folded): replayable in strict mode
+                        let hex: Vec<String> = l4v::sym::native::used().iter().map(|v| v.iter().map(|b| format!("{:02x}", b)).collect::<String>()).collect();
                         println!("RANDOM: REPRODUCED with {}", hex.join(","));
                         std::process::exit(1);
                     }
